@@ -39,7 +39,7 @@ def gen_lit(rng):
     if r < 0.65:
         return {"t": "bare", "w": rng.choice(["-", "_", ".", "a[0]", "x=1", "#tag", "a.b.c", "%", "@home"])}
     for _ in range(20):
-        s = gen.text(rng, rng.choice(["multi", "path", "delim", "nested1", "nested2", "backslash", "exotic", "numlike", "boolnone", "empty", "punct", "word"]))
+        s = gen.text(rng, rng.choice(["multi", "path", "delim", "nested1", "nested2", "backslash", "exotic", "numlike", "boolnone", "empty", "punct", "word", "padded"]))
         if c01.str_in_dom(s) and not (s and (s[0] in "'\"" and s[-1:] in "'\"" and len(s) == 1)):
             break
     else:
